@@ -100,6 +100,9 @@ def cov (ps : List (List (Rat × Rat))) : Cov :=
 
 def Cov.covarSamp (c : Cov) : Option Rat := if c.count ≤ 1 then none else some (c.ck / ((c.count : Rat) - 1))
 def Cov.covarPop (c : Cov) : Option Rat := if c.count = 0 then none else some (c.ck / c.count)
+/-- the square of `pearson_correlation = Ck / sqrt(MkX * MkY)` (the square root is not rational): `none` = NaN, the value
+for an empty dataset, a single row, or a constant column, where `MkX * MkY = 0` -/
+def Cov.corrSq (c : Cov) : Option Rat := if c.mkX * c.mkY = 0 then none else some (c.ck * c.ck / (c.mkX * c.mkY))
 
 /-! ### SPEC: two-pass textbook formulas -/
 
